@@ -13,6 +13,7 @@ type NativeResult struct {
 	File     string   `json:"file"`
 	Harness  string   `json:"harness"`
 	Failed   []string `json:"failed"`
+	Evaluated []string `json:"evaluated"`
 	Reached  []string `json:"reached"`
 	Notes    []string `json:"notes"`
 	Panicked bool     `json:"panicked"`
@@ -51,6 +52,7 @@ func ReplayMain(harnesses map[string]func()) error {
 		p, v := Run(h)
 		r.Failed, r.Reached, r.Notes, r.Diverged = Out.Failed, Out.Reached, Out.Notes, Out.Diverged
 		r.Skipped = Out.Skipped
+		r.Evaluated = Out.Evaluated
 		r.Panicked = p
 		if p {
 			r.PanicVal = fmt.Sprint(v)
